@@ -81,7 +81,7 @@ func runC04(c *mon.Ctx) {
 				}
 				zf := FrFromBig(z)
 				snap := append([]fr.Element(nil), lv...)
-				rep := Rerepresent(&comm, rng.Intn(6), rng)
+				rep := Rerepresent(&comm, rng.Intn(NumRepKinds), rng)
 				ptr := common.NewTranscript("c04")
 				var pr ipa.IPAProof
 				var err error
@@ -117,7 +117,7 @@ func runC04(c *mon.Ctx) {
 					var ok bool
 					var verr error
 					vtr := common.NewTranscript("c04")
-					cm := Rerepresent(&comm, rng.Intn(6), rng)
+					cm := Rerepresent(&comm, rng.Intn(NumRepKinds), rng)
 					if pv, _ := mon.Try(func() { ok, verr = ipa.CheckIPAProof(vtr, env.Conf, cm, pr, zf, FrFromBig(res)) }); pv != nil {
 						c.Fail("panic/CheckIPAProof/point="+names[pi], fmt.Sprintf("CheckIPAProof panicked at point %s: %v", names[pi], pv), nil)
 						continue
